@@ -129,8 +129,11 @@ func ZZC17(n int) {
 		}
 	}
 
-	path := zzv.Bytes("p", n%100)
-	pm := zzProbeMethods[zzv.Choice("m", 4)]
+	path, pm := "/a", "GET" // maxLen 0: a fixed probe (runs that spend their budget on longer method lists)
+	if n%100 > 0 {
+		path = zzv.Bytes("p", n%100)
+		pm = zzProbeMethods[zzv.Choice("m", 4)]
+	}
 	zzv.Assume(path != "" && path != "*")
 	before := zzState(r, m)
 	ob, wb := zzServe(r, zzReq(pm, path))
